@@ -13,7 +13,7 @@ PID = "C06"
 PROPS_MODULE = "Haiway.Props.C06"
 RULE = ("case = scope program (1-5 tasks: async/sync scopes and ctx.updated nested to depth 4, ctx.spawn / plain create_task "
         "children that spawn further, gates, user raises incl. while being cancelled, try/catch-all, ctx.cancel, "
-        "check_cancellation; no disposables) + explicit schedule of gate releases and Task.cancel() calls; directed programs "
+        "check_cancellation; a third of the random programs with disposables whose enter / exit scripts return, raise or wait on a gate) + explicit schedule of gate releases and Task.cancel() calls; directed programs "
         "with every schedule of length <= 3 (quick) / <= 5 (thorough), random programs with random schedules, and for every "
         "10th random program one cancellation injected at every schedule step on each of the 3 highest live tasks; "
         "non-trivial = at least one member of an async scope's group is still pending when that scope's body ends; "
@@ -30,9 +30,10 @@ def corpus():
 
 def generate(rng, tier):
     yield from gc.directed(3 if tier == "quick" else 5)
-    n = 8000 if tier == "quick" else 130000
+    n = 7000 if tier == "quick" else 130000
     for i in range(n):
-        c = gc.gen(rng, depth=rng.choice([2, 3, 3, 4]), p_raise=rng.choice([0.05, 0.1]), p_cancel=rng.choice([0.15, 0.3]))
+        c = gc.gen(rng, depth=rng.choice([2, 3, 3, 4]), p_raise=rng.choice([0.05, 0.1]), p_cancel=rng.choice([0.15, 0.3]),
+                   p_disp=rng.choice([0.0, 0.0, 0.4]))
         yield c
         if i % 10 == 0:
             yield from gc.sweep(c)
